@@ -421,6 +421,24 @@ func ruleNonEmpty(c *Ctx, r *RuleResult, calleeName string) {
 					}
 				}
 			}
+			if !lifted && len(g.monos()) == 1 {
+				// the collection indexed belongs to a node that was itself read from memory (a queue of
+				// nodes, a child of a child): its non-emptiness is a shape invariant of the data, which
+				// this rule records and does not judge
+				var at *Atom
+				P.atomsOf(Poly{g.monos()[0]: 1}, func(a *Atom) { at = a })
+				if at != nil && at.kind == aLen && g[g.monos()[0]] == -1 {
+					if ld, ok := at.val.(*ssa.UnOp); ok && ld.Op == token.MUL {
+						if fa, ok := ld.X.(*ssa.FieldAddr); ok {
+							if _, isParam := strip(fa.X).(*ssa.Parameter); !isParam {
+								r.inst("%s: %s (%s): node read from memory, shape invariant not judged", calleeName, ob.desc, ob.names[k])
+								r.note("%s: %s needs %s of a node that is read from memory (%s): recorded, not judged", calleeName, ob.desc, ob.names[k], valName(fa.X))
+								continue
+							}
+						}
+					}
+				}
+			}
 			if !lifted {
 				r.inst("%s: %s", calleeName, ob.desc)
 				r.oblig(false)
@@ -447,6 +465,9 @@ func ruleNonEmpty(c *Ctx, r *RuleResult, calleeName string) {
 				ncalls++
 				if PF == nil {
 					PF = NewProver(c, fn)
+				}
+				if len(pres) == 0 {
+					r.inst("%s: call %s: no lifted precondition to establish", c.short(fn), calleeName)
 				}
 				for _, pr := range pres {
 					arg := PF.canon(strip(call.Call.Args[pr.param]))
@@ -507,6 +528,11 @@ func init() {
 			ruleNonEmpty(c, ne, "dawg.replaceOrRegister")
 			pure := &RuleResult{Rule: "PURE", Doc: "Dawg queries write nothing reachable from the Dawg", MinInst: len(dawgPure)}
 			for _, n := range dawgPure {
+				if c.helperGone(n) {
+					pure.note("%s no longer exists: judged through its callers", n)
+					pure.MinInst--
+					continue
+				}
 				noWrites(c, pure, c.Fn(n), []int{0}, "the Dawg")
 			}
 			ww := ruleWhoWrites(c, "WHO-WRITES", "dawg", "Dawg", dawgWriters, "only construction-time functions may write Dawg nodes")
